@@ -4,7 +4,7 @@ Proof: Cpf.Props.C01 (engine refinement: every combination in the cross product 
 condition is true is in the result, for every condition shape and every atom meaning).
 Correspondence: vlib/engine.py (real QueryEntities vs Lean model fed with the real atom tables).
 Oracle: generator AST evaluated directly on the dumped candidates."""
-import collections, json, os, random
+import itertools, collections, json, os, random
 from vlib import common as C, engine as E, querygen as QG, genquery as GQ, genjava as G
 
 LEAN_MODULES = ["Cpf.Props.C01"]
@@ -183,6 +183,31 @@ def sweep(run, pid):
                 run.count(("shape", pi, QG.canonical(f)))
                 judge(run, pid, proj, text, q, res, stats, mism)
             run.sample(dict(query=QG.plain(make_query([(k1, a1)], shapes[-1], a1)), kind="exhaustive-shape", project_nodes=len(proj.nodes)))
+            # --- two entities: flat (unparenthesised) chains of three and four operands, plain and negated, every
+            #     order of operands over the two aliases
+            pairs = [(ka, kb) for ka in kinds for kb in kinds if ka != kb and 0 < len(proj.by_kind.get(ka, [])) * len(proj.by_kind.get(kb, [])) <= E.MAX_TUPLES]
+            if pairs:
+                ka, kb = rng.choice(pairs)
+                ax1, ax2 = QG.accessor_atom(rng, "x", ka, proj.values), QG.accessor_atom(rng, "x", ka, proj.values)
+                ay1, ay2 = QG.accessor_atom(rng, "y", kb, proj.values), QG.accessor_atom(rng, "y", kb, proj.values)
+                chains = []
+                for ops in itertools.permutations([ax1, ay1, ax2]):
+                    chains.append(list(ops))
+                chains += [[ax1, ay1, ay2, ax2], [ay1, ax1, ax2, ay2]]
+                conds = []
+                for ch in chains:
+                    for op in ("and", "or"):
+                        flat = ch[0]
+                        for o in ch[1:]:
+                            flat = QG.mk(op, flat, o)
+                        conds += [flat, QG.mk("not", flat), QG.mk("and", ay2, QG.mk("not", flat)), QG.mk("and", QG.mk("not", flat), ax1)]
+                for cnd in conds:
+                    q = make_query([(ka, "x"), (kb, "y")], cnd, "x")
+                    text = QG.plain(q)
+                    res = E.engine_case(proj, d, text, q)
+                    run.count(("two-entity-chain", pi, QG.canonical(cnd)))
+                    stats["two_entity_chain_cases"] += 1
+                    judge(run, pid, proj, text, q, res, stats, mism)
             # --- predicate calls: body shapes x call contexts
             for q in predicate_cases(rng, proj, k1, limit=(120 if quick else None)):
                 text = QG.plain(q)
